@@ -281,6 +281,9 @@ DIRECTED = [
     ("(w1 := x + 1) > 1000 and w1 > 0", ["x"], {}),
     ("f'{x!r}{s:>4}' == 'zz'", ["x", "s"], {}),
     ("ident(G) is not None", ["G"], {"G": None}),
+    ("all(y > 0 for y in xs if y != -1 if y % 2 == 0)", ["xs"], {"xs": [-3, 4, -2]}),
+    ("all(y > 0 for y in xs if y % 2 == 0 if y != 4 if y < 100)", ["xs"], {"xs": [-3, 4, 6, -2]}),
+    ("all(y + z > 0 for y in xs if y != -1 if y % 2 == 0 for z in ys if z < 5 if z != 1)", ["xs", "ys"], {"xs": [-3, 4, -2], "ys": [7, 1, 0]}),
     ("all(y > 1 for y in xs if y != 5 if 10 // (y - 5) < 100)", ["xs"], {"xs": [7, 5, 0]}),
     ("all(len(v) < 3 for v in [xs, ys])", ["xs", "ys"], {"xs": list(range(40)), "ys": [1]}),
     ("all(v != s for v in [CS, s])", ["s"], {"s": "abcxyz" * 12}),
